@@ -22,7 +22,7 @@ BOUNDS = ("tree catalogue (spec/catalogue.py) incl. Weld, plus three 3-body chai
           "coordinates and mass/frame parameters pinned at exact rational base points (2 quick / 4 thorough); fallback to linear inputs only "
           "when the encoder's term limit is exceeded; hinge-inertia inverses assumed to exist (division side conditions); LU pivoting "
           "path of 6-dof hinge matrices fixed by the path condition")
-NOT_COVERED = ("constraint forces (multipliers are computed by LAPACK, see C08); position/velocity-level Motions and locks (C10 covers their "
+NOT_COVERED = ("thorough tier: the 5-body trees get 2 base points and 2 choices of free coordinates only; constraint forces (multipliers are computed by LAPACK, see C08); position/velocity-level Motions and locks (C10 covers their "
                "kinematics); trees beyond the catalogue; more than k simultaneously free coordinates; float; rounding")
 
 MASSLESS = [("3C:Pin-Slider*-Pin", "Pin:0,Slider:1,Pin:2", 2), ("3C:Universal-Weld*-Ball", "Universal:0,Weld:1,Ball:2", 2),
@@ -40,7 +40,7 @@ def instances(tier, seed):
     for n, spec, ml in MASSLESS:
         out.append(dict(name=n, args=[spec, "0", "0", str(ml)], mode=0))
         out.append(dict(name=n + "|base-prescribed", args=[spec, "0", "2", str(ml)], mode=2))
-    return tier_caps(out, tier)
+    return tier_caps(out, tier, big_base_points=2)
 
 
 HEAVY = ("Free", "FreeLine", "Bushing", "CantileverFreeBeam", "Ellipsoid")   # LU-inverted 5/6-dof hinge matrices, non-trig use of angles
@@ -49,7 +49,7 @@ HEAVY = ("Free", "FreeLine", "Bushing", "CantileverFreeBeam", "Ellipsoid")   # L
 def free_sets(inst, tr, tier, rng):
     fs = list(cat.coordinate_free_sets(inst, tr, tier, rng, always=("u", "f_", "F", "a_")))
     if tier != "quick":
-        return cap_sets(fs, tier)
+        return cap_sets(fs, tier, inst=inst, big_n=2)
     if inst.get("mode") == 1:
         return fs[:2]           # no hinge-matrix inverses: cheap
     # quick tier, forward dynamics involved: one free-coordinate set per base point + the set with every coordinate pinned;
